@@ -22,7 +22,9 @@ STATUSES = ('WAITING', 'PENDING', 'DONE', 'FAILED', 'SKIPPED')
 NAMES = ('alpha', 'b eta', 'gämma', 'delta.d', '-eps', 'zeta_0', 'Eta',
          # names that mean something to glob()
          '.iota', 'we[i]rd', 'st*r', 'wh?t',
-         'th.eta.long-name-with-many-characters-0123456789')
+         'th.eta.long-name-with-many-characters-0123456789',
+         # a name with a directory part: the output directory is nested
+         'grp/nested')
 _MODS = {}
 
 
